@@ -686,6 +686,9 @@ func ParseSInterP(buf string) frt.Tuple2[string, []string] {
 				res.Truncate(res.Len() - 1)
 			}
 			res.WriteByte(c2)
+		} else if c == '%' {
+			// the text becomes a format string for fmt.Sprintf: a literal % must be doubled
+			res.WriteString("%%")
 		} else if c == '{' {
 			i++
 			vbeg := i
